@@ -14,9 +14,10 @@ pub(super) fn index_for_rcurrent(
 ) -> Result<u32, std::io::Error> {
     // we believe what we get - but if we get nothing, we determine what's next
     // according to the filesystem
-    let mut index_for_rcurrent = o_index_for_rcurrent
-        .or_else(|| get_highest_index(&config.file_spec).map(|idx| idx + 1))
-        .unwrap_or(0);
+    let mut index_for_rcurrent = match o_index_for_rcurrent {
+        Some(idx) => idx,
+        None => get_highest_index(&config.file_spec)?.map_or(0, |idx| idx + 1),
+    };
 
     if rotate_rcurrent {
         #[cfg(flexi_logger_verif)]
@@ -43,10 +44,10 @@ pub(super) fn index_for_rcurrent(
     Ok(index_for_rcurrent)
 }
 
-pub(super) fn get_highest_index(file_spec: &FileSpec) -> Option<u32> {
+pub(super) fn get_highest_index(file_spec: &FileSpec) -> std::io::Result<Option<u32>> {
     let mut o_highest_idx = None;
     for file in
-        super::list_and_cleanup::list_of_log_and_compressed_files(file_spec, &InfixFilter::Numbrs)
+        super::list_and_cleanup::list_of_log_and_compressed_files(file_spec, &InfixFilter::Numbrs)?
     {
         let name = file.file_stem().unwrap(/*ok*/).to_string_lossy();
         let infix = if file_spec.has_basename()
@@ -75,5 +76,5 @@ pub(super) fn get_highest_index(file_spec: &FileSpec) -> Option<u32> {
             Some(prev) => Some(max(prev, idx)),
         };
     }
-    o_highest_idx
+    Ok(o_highest_idx)
 }
